@@ -3,7 +3,7 @@
 
 GEN   specs/keepclient/KeepPut.tla   MC_KeepPut.cfg (refinement of KeepPutContract, accounting, termination)
                                      Gen_KeepPut*.cfg (every completion order x outcome assignment)
-RUN   harness/keepclient/put_driver_test.go  (real PutB/PutHR/putReplicas, gated fake HTTPClient)
+RUN   harness/C11_keepclient/put_driver_test.go  (real PutB/PutHR/putReplicas, gated fake HTTPClient)
 JUDGE specs/keepclient/KeepPutTrace.tla      (KeepPutContract)
 """
 import os
@@ -43,7 +43,7 @@ def run(ctx):
                      "disk": rnd.random() < 0.6, "ro": rnd.randint(0, 2), "steps": []})
     by_id = {s["id"]: s for s in scns}
     # RUN
-    ov = ctx.harness_overlay(pkg, "harness/keepclient")
+    ov = ctx.harness_overlay(pkg, "harness/C11_keepclient")
     events, out = ctx.go_run_driver(pkg, ov, "TestVerifC11$", scns, timeout=1500)
     traces = vlib.split_traces(events)
     ctx.evaluations = len(traces)
